@@ -51,7 +51,7 @@ Proof. exact disabled_chord_never_activated. Qed.
 Print Assumptions C09_v2_disabled_chord_never_activated.
 
 (* chords v2 release rule (drain_releases / the ignore-window branch of drain_inputs) *)
-From KV Require Import Proofs.C09V2Release Proofs.C09V2Exact.
+From KV Require Import Proofs.C09V2Release Proofs.C09V2Exact Proofs.C09V2Fires.
 Theorem C09_v2_nonparticipant_release_ignored : forall j a, mem_n j (ac_keys a) = false -> release_in_ach j a = a.
 Proof. exact nonparticipant_release_ignored. Qed.
 Print Assumptions C09_v2_nonparticipant_release_ignored.
@@ -106,3 +106,19 @@ Theorem C09_v2_same_keys_any_order : forall ch typed typed',
   Permutation typed typed' -> same_keys ch typed = same_keys ch typed'.
 Proof. exact same_keys_any_order. Qed.
 Print Assumptions C09_v2_same_keys_any_order.
+
+(* defchordsv2, the other direction: the presses in the queue are exactly the keys of an enabled chord, typed in any order:
+   process_presses does not fail and activates a chord with exactly that key set -- or changes no active chord, which
+   happens only while no participant has been released and a timeout is still running (a longer chord can still come) *)
+Theorem C09_v2_exact_set_fires_or_waits : forall c layer presses rf ch,
+  scan_presses (cv_queue c) [] = Ok (presses, rf) ->
+  presses <> [] -> NoDup presses ->
+  In ch (cv_chords c) -> enabled_on layer ch = true -> same_keys ch presses = true ->
+  (length (cv_active c) < 10)%nat ->
+  exists c', process_presses c layer = Ok c' /\
+    ((exists cch since coord rf',
+        cv_active c' = cv_active c ++ [get_active_chord cch since coord rf'] /\
+        In cch (cv_chords c) /\ enabled_on layer cch = true /\ same_keys cch presses = true)
+     \/ (cv_active c' = cv_active c /\ rf = false /\ cv_until_change c' <> 0)).
+Proof. exact exact_set_fires_or_waits. Qed.
+Print Assumptions C09_v2_exact_set_fires_or_waits.
